@@ -19,7 +19,12 @@ like the face ring, no near tie, at most one gap) — decided by the Lean driver
 The model of the repaired algorithm (`Dual.constructDual … true`, run at Float by the driver) must also
 reproduce the table exactly; the model of the code as found in the snapshot (`… false`) is kept in the
 driver and is reported next to every failure (`equals_model_of_code_as_found`).
-corpus/C18/antiprism5-star.json is the minimised failure of the snapshot (fixed by c1960934).
+Chains: get_dual -> get_dual -> get_dual on staircase / dropped-face / MPAS-regional partial meshes and on
+closed ones; every grid of the chain is judged against ITS OWN parent (the parent's node_face rows must be,
+as multisets, the transpose of its face_node table computed by C03's proved Lean model).  Grids with a
+source-supplied node_face_connectivity whose padding sits anywhere in the rows are judged the same way.
+corpus/C18/antiprism5-star.json is the minimised failure of the snapshot (fixed by c1960934);
+corpus/C18/bipyramid5-supplied-node-face.json that of the prefix gather (fixed by b97cc1ce).
 """
 
 from __future__ import annotations
@@ -134,6 +139,70 @@ def partial_zoo(rng):
     return out
 
 
+def staircase(rng):
+    """quad lattice whose boundary is a staircase (coastline-like): faces (i, j) with lo <= i + j <= hi, plus holes"""
+    nx, ny = rng.choice([4, 5, 6]), rng.choice([4, 5])
+    p = meshes.patch(nx, ny, lon0=rng.choice([-30, 150, 160, -5]), lat0=rng.choice([-20, 30, 50, -70]), dlon=6.0, dlat=5.0)
+    lo, hi = rng.choice([1, 2]), nx + ny - 2 - rng.choice([1, 2])
+    idx = [j * nx + i for j in range(ny) for i in range(nx) if lo <= i + j <= hi and rng.random() < 0.93]
+    m = p.select(idx, kind=f"staircase{nx}x{ny}")
+    return m
+
+
+def amesh_of_grid(g, kind, closed):
+    faces = [[int(v) for v in r if v != INT_FILL] for r in g.face_node_connectivity.values]
+    m = meshes.AMesh(faces, xyz_of(g, "node"), closed, kind)
+    return m
+
+
+_MPAS = {}
+
+
+def mpas_region(rng):
+    """regional subset of the MPAS sample (hexagons inside a bounding circle), as a self-contained mesh"""
+    import uxarray as ux
+
+    if "m" not in _MPAS:
+        f = common.REPO / "test/meshfiles/mpas/QU/mesh.QU.1920km.151026.nc"
+        _MPAS["m"] = amesh_of_grid(ux.open_grid(str(f), use_dual=False), "mpasQU1920", True) if f.exists() else None
+    m = _MPAS["m"]
+    if m is None:
+        return None
+    c = np.array([rng.gauss(0, 1) for _ in range(3)])
+    c /= np.linalg.norm(c)
+    rad = math.radians(rng.uniform(35, 75))
+    cen = np.array([m.xyz[f].mean(axis=0) for f in m.faces])
+    cen /= np.linalg.norm(cen, axis=1, keepdims=True)
+    idx = [i for i in range(m.n_face) if math.acos(max(-1.0, min(1.0, float(cen[i] @ c)))) <= rad]
+    if len(idx) < 6:
+        return None
+    return m.select(idx, kind=f"mpas-region{len(idx)}")
+
+
+def chain_zoo(rng, big):
+    """roots for get_dual -> get_dual -> get_dual: irregular partial meshes first, then closed ones"""
+    out = [staircase(rng), staircase(rng).split_some(rng, 0.3)]
+    out.append(meshes.cube_sphere(rng.choice([3, 4])).drop_faces(rng, rng.choice([0.2, 0.35])))
+    out.append(meshes.hull(rng.choice([30, 40, 60]), rng).drop_faces(rng, 0.25))
+    out.append(meshes.dual_of(meshes.hull(rng.choice([24, 40]), rng)).drop_faces(rng, 0.25))
+    r = mpas_region(rng)
+    if r is not None:
+        out.append(r)
+    out += [meshes.icosa(), meshes.cube_sphere(rng.choice([2, 3])), meshes.hull(rng.choice([12, 20, 30]), rng),
+            meshes.prism(rng.choice([4, 5, 6]), lat=rng.uniform(20, 50))]
+    if big:
+        out += [meshes.cube_sphere(6).drop_faces(rng, 0.3), meshes.hull(120, rng).drop_faces(rng, 0.2)]
+        r = mpas_region(rng)
+        if r is not None:
+            out.append(r)
+    res = []
+    for m in out:
+        if rng.random() < 0.4:
+            m = m.rotated(meshes.random_rotation(rng))
+        res.append(m.renumber(rng))
+    return res
+
+
 def stream(rng, big):
     res = []
     for m in closed_zoo(rng, big) + partial_zoo(rng):
@@ -197,10 +266,25 @@ def tables(g):
     return NF, FE, N, int(g.n_edge), E
 
 
-def judge_grid(ctx, g, inp, key, m=None, shrink=True, closed=None):
-    """Grid.get_dual() of the real code, judged by the Lean spec; returns (dual grid, table) or None"""
+def judge_grid(ctx, g, inp, key, m=None, shrink=True, closed=None, variant=""):
+    """Grid.get_dual() of the real code on grid `g`, judged by the Lean spec against g's OWN tables;
+    returns (dual grid, table) or None.  `variant` names the input class in the signatures."""
     d = ctx.driver
     closed = bool(inp.get("closed")) if closed is None else closed
+    SIG = "C18/Grid.get_dual" + variant
+    # the grid under the dual must itself be consistent: node_face rows are, as multisets (padding
+    # anywhere), the transpose of face_node computed by C03's proved model
+    t0 = [[int(x) for x in r] for r in g.face_node_connectivity.values]
+    NF0 = [[int(x) for x in r] for r in g.node_face_connectivity.values]
+    ref = common.Tok(d.ask("C18.nodeface", int(g.n_node), enc_rows(t0))).rows()
+    if [sorted(x for x in r if x != INT_FILL) for r in NF0] != [sorted(x for x in r if x != INT_FILL) for r in ref]:
+        ctx.case(key, sample=None)
+        ctx.fail(SIG + "/parent-node_face-not-transpose", "node_face_connectivity of the grid handed to get_dual is not the transpose "
+                 "of its face_node_connectivity (the grid produced by the previous get_dual is inconsistent)", inp,
+                 dict(node_face=NF0[:12]), dict(transpose=ref[:12]), ["dual_grid_consistent"])
+        return None
+    if any(INT_FILL in r[: sum(1 for x in r if x != INT_FILL)] for r in NF0):
+        ctx.hit("parent-node_face:padding-not-at-end")
     T = None
     if int(g.n_node) <= INTERP_MAX:
         with interpreted() as it:
@@ -209,7 +293,7 @@ def judge_grid(ctx, g, inp, key, m=None, shrink=True, closed=None):
                     T = [[int(x) for x in r] for r in g.get_dual().face_node_connectivity.values]
                 except Exception as e:
                     ctx.case(key, sample=None)
-                    ctx.fail(f"C18/Grid.get_dual/raises/{type(e).__name__}/interpreted",
+                    ctx.fail(SIG + f"/raises/{type(e).__name__}/interpreted",
                              f"Grid.get_dual with construct_faces/_order_nodes interpreted raises {type(e).__name__}: {e}", dict(inp, jit="off"))
                     return None
             else:
@@ -219,13 +303,13 @@ def judge_grid(ctx, g, inp, key, m=None, shrink=True, closed=None):
         D = [[int(x) for x in r] for r in dual.face_node_connectivity.values]
     except Exception as e:
         ctx.case(key, sample=None)
-        ctx.fail(f"C18/Grid.get_dual/raises/{type(e).__name__}", f"Grid.get_dual raises {type(e).__name__}: {e}", inp)
+        ctx.fail(SIG + f"/raises/{type(e).__name__}", f"Grid.get_dual raises {type(e).__name__}: {e}", inp)
         return None
     if T is not None:
         ctx.hit("jit-off-compared")
         if T != D:
             ctx.case(key, sample=None)
-            ctx.fail("C18/Grid.get_dual/jit-off-differs", "get_dual gives a different table when construct_faces/_order_nodes are interpreted",
+            ctx.fail(SIG + "/jit-off-differs", "get_dual gives a different table when construct_faces/_order_nodes are interpreted",
                      dict(inp, jit="off"), dict(jit_off=T), dict(jit_on=D), ["jit"])
             return None
     NF, FE, N, n_edge, E = tables(g)
@@ -257,7 +341,7 @@ def judge_grid(ctx, g, inp, key, m=None, shrink=True, closed=None):
     ctx.hit("skipped:more-than-one-gap", v["gap_skipped"])
     model = None
     if len(NF) <= SPEC_MAX_NODES:
-        model = common.Tok(d.ask("C18.model", 1, enc_geo(NF, nodes, cents))).rows()
+        model = common.Tok(d.ask("C18.model", 3, enc_geo(NF, nodes, cents))).rows()
     if v["status"] != "ok":
         cl = v["clauses"]
         bad = (v["ring_bad"] + v["ccw_bad"])[:1]
@@ -273,14 +357,15 @@ def judge_grid(ctx, g, inp, key, m=None, shrink=True, closed=None):
             judge_grid(ctx, meshes.to_grid(sub, ux), sinp, ("star", sub.rows()), m=sub, shrink=False, closed=False)
             if len(ctx.failures) > n0:
                 return None
-        asis = None
+        asis = asis1 = None
         if len(NF) <= SPEC_MAX_NODES:
             asis = common.Tok(d.ask("C18.model", 0, enc_geo(NF, nodes, cents))).rows()
+            asis1 = common.Tok(d.ask("C18.model", 1, enc_geo(NF, nodes, cents))).rows()
         what = ("dual face corners are not " + {"ring": "a ring of edge-sharing primal faces", "ccw": "in counter-clockwise order",
                                                  "count": "one per node of valence>=3", "rows": "exactly the node's faces"}.get(cl[0], cl[0])
                 + f" (clauses {cl}; nodes ring_bad={v['ring_bad'][:4]} ccw_bad={v['ccw_bad'][:4]})")
-        ctx.fail("C18/Grid.get_dual/" + "+".join(cl), what, inp,
-                 dict(obs, verdict=v, equals_model_of_code_as_found=(asis == D)),
+        ctx.fail(SIG + "/" + "+".join(cl), what, inp,
+                 dict(obs, verdict=v, equals_model_of_snapshot=(asis == D), equals_model_with_prefix_gather=(asis1 == D)),
                  dict(repaired_model=model, equals_repaired_model=(model == D)), cl)
         return None
     # correspondence with the (repaired) model: exact table
@@ -295,7 +380,7 @@ def judge_grid(ctx, g, inp, key, m=None, shrink=True, closed=None):
     flon, flat = g.face_lon.values, g.face_lat.values
     dl, dt = dual.node_lon.values, dual.node_lat.values
     if int(dual.n_node) != int(g.n_face) or not (np.array_equal(dl, flon) and np.array_equal(dt, flat)):
-        ctx.fail("C18/Grid.get_dual/dual-nodes-are-face-centres", "dual nodes are not the primal face centres (count or position)", inp,
+        ctx.fail(SIG + "/dual-nodes-are-face-centres", "dual nodes are not the primal face centres (count or position)", inp,
                  dict(n_node=int(dual.n_node), lon=dl.tolist()[:8], lat=dt.tolist()[:8]),
                  dict(n_face=int(g.n_face), face_lon=flon.tolist()[:8], face_lat=flat.tolist()[:8]), ["dual_nodes"])
     if m is not None:
@@ -303,10 +388,10 @@ def judge_grid(ctx, g, inp, key, m=None, shrink=True, closed=None):
         cen /= np.linalg.norm(cen, axis=1, keepdims=True)
         dx = xyz_of(dual, "node")
         if dx.shape != cen.shape or np.max(np.linalg.norm(dx - cen, axis=1)) > 1e-9:
-            ctx.fail("C18/Grid.get_dual/dual-node-position", "dual node is not at the (normalised mean-of-corners) centre of its face", inp,
+            ctx.fail(SIG + "/dual-node-position", "dual node is not at the (normalised mean-of-corners) centre of its face", inp,
                      dict(dual_xyz=dx.tolist()[:6]), dict(centres=cen.tolist()[:6]), ["dual_nodes"])
     if closed and min(val) >= 3 and int(dual.n_face) != int(g.n_node):
-        ctx.fail("C18/Grid.get_dual/one-face-per-node", "closed grid: dual n_face != primal n_node", inp, obs, None, ["count"])
+        ctx.fail(SIG + "/one-face-per-node", "closed grid: dual n_face != primal n_node", inp, obs, None, ["count"])
     return dual, D
 
 
@@ -373,18 +458,58 @@ def judge_data(ctx, g, dualD, inp, key, closed, all3, forced=None):
             ctx.fail(f"C18/UxDataArray.get_dual/size/{centre}", f"data length along {swapped} differs from the dual grid's {swapped}", dinp, obs, None, ["dual_data_size"])
 
 
-def judge(ctx, m, tag, data=True, forced=None):
+def scramble_padding(rng, NF, keep_order=True):
+    """the same node_face table with the padding of every row moved to random positions
+    (as a source-supplied table such as MPAS cellsOnVertex may have it)"""
+    out = []
+    for r in NF:
+        real = [int(x) for x in r if x != INT_FILL]
+        if not keep_order:
+            rng.shuffle(real)
+        slots = sorted(rng.sample(range(len(r)), len(real)))
+        row = [INT_FILL] * len(r)
+        for pos, x in zip(slots, real):
+            row[pos] = x
+        out.append(row)
+    return out
+
+
+def judge(ctx, m, tag, data=True, forced=None, depth=1, node_face=None):
+    """one root mesh: Grid.get_dual (and UxDataArray.get_dual), then get_dual of the result, ... `depth`
+    times; every grid of the chain is judged against its own parent"""
     import uxarray as ux
 
     inp = mesh_input(m, tag)
-    g = meshes.to_grid(m, ux)
-    key = (tag, m.rows(), [round(float(x), 9) for x in m.lon[:6]])
-    r = judge_grid(ctx, g, inp, key, m=m)
-    if r is not None and data:
-        NF = g.node_face_connectivity.values
-        all3 = bool(((NF != INT_FILL).sum(axis=1) >= 3).all())
-        judge_data(ctx, g, r, inp, key, m.closed, all3, forced=forced)
-    return r
+    kw = {}
+    variant = ""
+    if node_face is not None:
+        inp["node_face"] = node_face
+        kw["node_face_connectivity"] = np.array(node_face, dtype=np.int64)
+        variant = "[supplied-node_face]"
+        ctx.hit("supplied-node_face(padding anywhere)")
+    g = meshes.to_grid(m, ux, **kw)
+    key = (tag, m.rows(), [round(float(x), 9) for x in m.lon[:6]], node_face)
+    cur, cur_m, closed, first = g, m, bool(m.closed), None
+    for k in range(1, depth + 1):
+        NFk = cur.node_face_connectivity.values
+        val = (NFk != INT_FILL).sum(axis=1)
+        if not (val >= 3).any():
+            ctx.hit("chain-ends:no-node-with-3-faces")
+            break
+        all3 = bool((val >= 3).all())
+        kinp = inp if k == 1 else dict(inp, chain_depth=k)
+        if k > 1:
+            ctx.hit(f"chain-depth={k}:{'closed' if closed else 'partial'}")
+        r = judge_grid(ctx, cur, kinp, key + (k,), m=cur_m, shrink=(k == 1 and node_face is None), closed=closed,
+                       variant=variant + (f"[chain-depth={k}]" if k > 1 else ""))
+        if k == 1:
+            first = r
+        if r is None:
+            break
+        if data and (k <= 2 or forced is not None):
+            judge_data(ctx, cur, r, kinp, key + (k,), closed, all3, forced=forced if k == depth else None)
+        cur, cur_m, closed = r[0], None, closed and all3
+    return first
 
 
 # --------------------------------------------------------------------------------------
@@ -444,7 +569,9 @@ def corpus_cases():
 
 
 def run(ctx):
-    ctx.rule = ("closed meshes (prisms, bipyramids, antiprisms 3..8, icosahedron and its dual, cube-sphere, convex-hull "
+    ctx.rule = ("chains get_dual -> get_dual -> get_dual on staircase / dropped-face / MPAS-regional partial meshes and on closed "
+                "ones, each grid judged against its own parent; grids with a supplied node_face_connectivity padded anywhere; "
+                "closed meshes (prisms, bipyramids, antiprisms 3..8, icosahedron and its dual, cube-sphere, convex-hull "
                 "triangulations, their duals and merged variants) and partial meshes (patches, fans with even and uneven face "
                 "sizes, dropped faces, isolated faces), randomly rotated / renumbered, a node placed exactly at a pole or on the "
                 "antimeridian; distinct = distinct (table, coordinates); non-trivial = some node of valence >= 4")
@@ -456,13 +583,33 @@ def run(ctx):
         "position is additionally compared with the normalised mean of the corners",
         "Float evaluation of the model uses the platform libm (arccos, sqrt)",
     ]
+    import uxarray as ux
+
+    rng = ctx.rng
     for inp in corpus_cases():
         ctx.hit("corpus")
-        judge(ctx, mesh_from_input(inp), inp.get("tag", "corpus"))
+        replay_input(ctx, inp, inp.get("tag", "corpus"))
     for rep in range(ctx.n(2, 40)):
-        for m in stream(ctx.rng, big=(ctx.thorough or ctx.escalate)):
+        big = ctx.thorough or ctx.escalate
+        for m in stream(rng, big=big):
             judge(ctx, m, m.kind)
+        # chains: the dual of a dual (of a dual), every grid judged against its own parent
+        for m in chain_zoo(rng, big):
+            judge(ctx, m, m.kind + "+chain", depth=3, data=(m.n_node <= 120))
+        # source-supplied node_face_connectivity with the padding anywhere in the rows
+        for m in rng.sample(stream(rng, big=False), 8) + [staircase(rng).renumber(rng)]:
+            NF = meshes.to_grid(m, ux).node_face_connectivity.values
+            if not (NF == INT_FILL).any():
+                continue
+            judge(ctx, m, m.kind + "+supplied-node_face", data=False, depth=rng.choice([1, 2]),
+                  node_face=scramble_padding(rng, NF, keep_order=rng.random() < 0.5))
     sample_file(ctx)
+
+
+def replay_input(ctx, inp, tag):
+    m = mesh_from_input(inp)
+    judge(ctx, m, tag, data="data_centre" in inp, forced=inp if "data_centre" in inp else None,
+          depth=int(inp.get("chain_depth", 1)), node_face=inp.get("node_face"))
 
 
 def replay(ctx, rp):
@@ -470,6 +617,5 @@ def replay(ctx, rp):
     if "table" not in inp:
         sample_file(ctx)
         return
-    m = mesh_from_input(inp)
-    judge(ctx, m, inp.get("tag", "replay"), data="data_centre" in inp, forced=inp if "data_centre" in inp else None)
+    replay_input(ctx, inp, inp.get("tag", "replay"))
 
